@@ -112,3 +112,20 @@ Qed.
 
 Example C02_property_statement_nonvacuous : wf ex_its /\ std_consistent ex_its /\ gedges (get_rc ex_its) <> [] /\ extract_k ex_its 1 <> extract_k ex_its 2.
 Proof. split; [apply ex_its_wf|]. split; [apply ex_its_std|]. split; vm_compute; discriminate. Qed.
+
+(** * "for every ITS graph": the hypothesis [std_consistent] of theorem 1 cannot be dropped — get_rc reads standard_order only.
+    Witness: a hand-made ITS whose bond 1-2 has orders (1, 2) but standard_order 0 (no ITSGraph output looks like this: C01_union):
+    the orders differ, the bond is not in the centre. *)
+Definition ex_incons : its := LG [(1%N, ex_n 70%N); (2%N, ex_n 70%N)] [(1%N, 2%N, IE 2 4 0)].
+Theorem rc_edges_inconsistent_refuted :
+  wf ex_incons /\ ~ std_consistent ex_incons /\ ~ ia_consistent ex_incons /\
+  (exists e, adj ex_incons 1%N 2%N = Some e /\ e_G e <> e_H e) /\ adj (get_rc ex_incons) 1%N 2%N = None.
+Proof.
+  split; [|split; [|split; [|split]]].
+  - apply wf_intro; simpl; [repeat constructor; simpl; intuition discriminate| |repeat constructor].
+    intros a b x [E|[]]. inversion E; subst. simpl. intuition discriminate.
+  - intros H. specialize (H 1%N 2%N (IE 2 4 0) (or_introl eq_refl)). simpl in H. discriminate.
+  - intros H. specialize (H 1%N 2%N (IE 2 4 0) (or_introl eq_refl)). simpl in H. discriminate.
+  - exists (IE 2 4 0). split; [reflexivity|simpl; discriminate].
+  - reflexivity.
+Qed.
